@@ -4,6 +4,7 @@ CONSTANTS
   MaxLen = 1
   KeyMode = "ideal"
   StoreMode = "nostore"
+  HitMode = "identity"
   Random = FALSE
 INIT Init
 NEXT Next
